@@ -22,8 +22,8 @@ def run_mutant(name, apply, expected, run_tests=True, only=None):
     res = {"name": name, "expected": expected}
     try:
         if run_tests:
-            rc, out = sh("CARGO_NET_OFFLINE=true cargo test --workspace --no-fail-fast --offline 2>&1 | grep -E '^test result|error(\\[|:)' ", cwd=REPO)
-            res["tests_pass"] = ("FAILED" not in out) and ("error" not in out) and ("test result: ok" in out)
+            rc, out = sh("CARGO_NET_OFFLINE=true cargo test --workspace --no-fail-fast --offline >/tmp/campaign.test.log 2>&1; echo rc=$?", cwd=REPO)
+            res["tests_pass"] = "rc=0" in out
         fired = {}
         for pid in (only or IDS):
             rc, out = sh(f"./check {pid} --tier quick", cwd="/verif")
